@@ -15,8 +15,8 @@ from props import e2e
 
 ID = 'C01'
 HARNESS = 'solve'
-COQ_IMPORTS = 'From VRP Require Model.Routing. From VRP Require Import Base.Tac Model.Core Spec.Valid Spec.ValidTD Spec.Relations.'
-MODEL_TARGETS = ['theories/Spec/Valid.vo', 'theories/Spec/ValidTD.vo', 'theories/Spec/Relations.vo']
+COQ_IMPORTS = 'From VRP Require Model.Routing. From VRP Require Import Base.Tac Model.Core Spec.Valid Spec.ValidTD Spec.ValidX Spec.Relations.'
+MODEL_TARGETS = ['theories/Spec/Valid.vo', 'theories/Spec/ValidTD.vo', 'theories/Spec/ValidX.vo', 'theories/Spec/Relations.vo']
 MODEL_NEEDS_IMPL = True
 SHARD = 24
 SIZES = {'quick': 420, 'thorough': 4200, 'search': 1800}
@@ -49,7 +49,7 @@ def generate(rng, tier, n):
     # solve, derive relations from the returned tours, re-solve with them); their own forked stream: the other cases are the
     # ones the generator produced before relations existed
     nrel = n // 5
-    cases = e2e.gen_cases(rng, n - nrel, per_problem=3, allow=('tdm',))
+    cases = e2e.gen_cases(rng, n - nrel, per_problem=3, allow=e2e.ALLOW_E2E)
     # a quarter of the relation cases: ONE vehicle with two shifts that are both used, relations for both shifts (same vehicleId,
     # different shiftIndex: the pinning rule is about the vehicle AND the shift, Relations.is_rel_tour); own forked stream
     ntwo = max(6, nrel // 4)
@@ -124,13 +124,13 @@ def model_term(c, impl):
     if s is None or e2e.unsupported(c, s):
         return '(@nil violation, @nil (list violation))'
     ids = e2e.Ids(c)
-    cons = ['(feasible_viols_x R P %s ++ xfeasible_viols P %s)' % (g, g)
-            for g in [e2e.g_solution(c, d, ids) for _, d in constructed_docs(c, impl)]]
+    cons = [e2e.term_F(c, d, ids, S=g) for d, g in [(d, e2e.g_solution(c, d, ids)) for _, d in constructed_docs(c, impl)]]
     # R = None: the classic fragment, feasible_viols_x None = Valid.feasible_viols; otherwise Spec/ValidTD.v (several profiles,
     # scale, time-dependent matrices: every leg evaluated at its departure time by the C16 provider model)
     return ('(let R := %s in let P := %s in let S := %s in '
-            '(precond_viol P ++ feasible_viols_x R P S ++ xfeasible_viols P S ++ rel_viols %s S, [%s]))') % (
-        e2e.g_routing(c, ids), e2e.g_problem(c, ids), e2e.g_solution(c, s, ids), e2e.g_relations(c, ids), '; '.join(cons))
+            '(precond_viol P ++ %s ++ rel_viols %s S, [%s]))') % (
+        e2e.g_routing(c, ids), e2e.g_problem(c, ids), e2e.g_solution(c, s, ids), e2e.term_F(c, s, ids), e2e.g_relations(c, ids),
+        '; '.join(cons))
 
 
 def compare(c, impl, model):
@@ -144,6 +144,7 @@ CLASS = {'FNoTour': 'tour-not-rebuildable', 'FInfeasible': 'tour-infeasible', 'F
          'FCompatibility': 'compatibility-classes-mixed-in-tour', 'FGroup': 'group-split-over-tours',
          'FUnreachable': 'unreachable-leg', 'FCapacityDim': 'capacity-exceeded-in-extra-dimension',
          'FOrder': 'task-order-violated', 'FBreakPlace': 'break-not-at-a-place-of-a-break-of-the-shift',
+         'FRequiredBreakMissing': 'required-break-missing', 'FReservedTime': 'reserved-time-of-required-break-used',
          'FRelVehicle': 'relation-job-on-another-vehicle-shift-or-not-served', 'FRelOrder': 'relation-order-broken',
          'FRelContiguous': 'strict-relation-not-contiguous', 'FRelAnchor': 'strict-relation-not-anchored'}
 
@@ -173,6 +174,18 @@ def oracle_model(c, impl, model):
         for (method, doc), vs in zip(docs, cons):
             for t in e2e.coq_viols(vs, 'F'):
                 cls = 'construction:' + CLASS.get(t[0], t[0])
+                if t[0] == 'FRequiredBreakMissing' and isinstance(t[1], int) and 0 <= t[1] < len(doc.get('tours') or []):
+                    # the writer defects C01-F6 / C01-F7 show in every document it writes
+                    cls = 'construction:' + e2e.rb_missing_class(c, doc['tours'][t[1]])
+                elif t[0] in ('FNoTour', 'FReservedTime', 'FInfeasible') and isinstance(t[1], int) and 0 <= t[1] < len(doc.get('tours') or []) \
+                        and e2e.rb_two_on_one_span(c, doc['tours'][t[1]]):
+                    cls = 'construction:' + CLASS[t[0]] + '-two-required-breaks-inside-one-leg-or-stop'
+                elif t[0] == 'FNoTour' and isinstance(t[1], int) and 0 <= t[1] < len(doc.get('tours') or []) and \
+                        e2e.rb_missing_class(c, doc['tours'][t[1]]) == 'required-break-inside-last-activity-of-open-tour-not-reported':
+                    cls = 'construction:tour-not-rebuildable-required-break-inside-last-activity-of-open-tour-not-reported'
+                elif t[0] in ('FNoTour', 'FReservedTime') and isinstance(t[1], int) and 0 <= t[1] < len(doc.get('tours') or []) \
+                        and e2e.rb_unreported_time(c, doc['tours'][t[1]]) > 0:
+                    cls = 'construction:' + CLASS[t[0]] + '-required-break-counted-in-statistic-but-not-reported'
                 if t[0] == 'FUnreachable' and reload_bridges(c, doc, t[1], t[2]):
                     # not removal-free after all: a reload marker that became trivial was removed between the two ends
                     cls = 'unreachable-leg-where-a-removed-reload-marker-fits'
@@ -207,6 +220,19 @@ def oracle_model(c, impl, model):
             # a tour without any job (root cause shared with C02-F1): every rule evaluated on it is moot
             vt = e2e.vehicle_type_of(c, tour)
             cls = 'empty-tour-max-duration-vehicle' if vt is not None and (vt.get('limits') or {}).get('maxDuration') is not None else 'empty-tour'
+        elif name == 'FRequiredBreakMissing' and tour is not None:
+            # findings C01-F6 (moved break not written) / C01-F7 (break inside the last activity of an open tour not written)
+            cls = e2e.rb_missing_class(c, tour)
+        elif name in ('FNoTour', 'FReservedTime', 'FInfeasible') and tour is not None and e2e.rb_two_on_one_span(c, tour):
+            # finding C01-F9: only one reserved time is applied per leg / activity
+            cls = CLASS[name] + '-two-required-breaks-inside-one-leg-or-stop'
+        elif name == 'FNoTour' and tour is not None and \
+                e2e.rb_missing_class(c, tour) == 'required-break-inside-last-activity-of-open-tour-not-reported':
+            # consequence of C01-F7: the last stop lasts longer than its activity explains
+            cls = 'tour-not-rebuildable-required-break-inside-last-activity-of-open-tour-not-reported'
+        elif name in ('FNoTour', 'FReservedTime') and tour is not None and e2e.rb_unreported_time(c, tour) > 0:
+            # consequence of C01-F6: the stop lasts longer than its activities explain
+            cls = CLASS[name] + '-required-break-counted-in-statistic-but-not-reported'
         elif name == 'FShiftStart' and tour is not None and \
                 ((e2e.vehicle_type_of(c, tour) or {}).get('limits') or {}).get('maxDuration') is not None:
             cls = 'departure-outside-shift-start-max-duration-vehicle'
@@ -286,6 +312,7 @@ def classify(c, impl):
                     + ('+arrival' if r['jobs'][-1:] == ['arrival'] else ''))
         if len(set(r['jobs'])) < len(r['jobs']):
             labs.append('relation-with-multi-task-job')
+    labs += e2e.feature4_labels(c, s)
     if s is not None and e2e.unsupported(c, s):
         labs.append('skipped-not-renderable=' + str(e2e.unsupported(c, s))[:40])
     if s is not None:
